@@ -102,25 +102,27 @@ Proof. exact @transfer_matches_dataflow. Qed.
 Print Assumptions C29_steps_match_dataflow.
 
 (* Calcium.Send, the non-chunked path of the cluster API: the engine is handed the
-   whole content; with distinct ids there is exactly one result per (target, file);
-   an id listed twice is served and reported twice (refuted, known finding) *)
+   whole content; exactly one result per (listed target, file) for any id list
+   (after the repair; before it an id listed twice was served and reported twice) *)
 Theorem C29_direct_delivery : forall {A} (content : list A),
   direct_reads Drain content = content /\ direct_reads DrainErr content = content /\
   forall k, direct_reads (GiveUp k) content = firstn k content.
 Proof. exact @direct_delivery. Qed.
 Print Assumptions C29_direct_delivery.
 
-Theorem C29_direct_partial : forall nfiles ids behs o f,
-  NoDup ids -> In (Some o) ids -> f < nfiles ->
+Theorem C29_direct_one_result : forall nfiles ids behs o f,
+  In (Some o) ids -> f < nfiles ->
+  fst (send_direct nfiles ids behs) = DOk /\
   length (filter (fun m => onat_eqb (d_target m) (Some o) && onat_eqb (d_file m) (Some f))
-                 (flat_map (messages_of nfiles behs) ids)) = 1.
-Proof. exact direct_one_result. Qed.
-Print Assumptions C29_direct_partial.
+                 (snd (send_direct nfiles ids behs))) = 1.
+Proof. exact direct_one_result_any. Qed.
+Print Assumptions C29_direct_one_result.
 
-Theorem C29_direct_duplicate_refuted :
-  snd (send_direct 1 [Some 0; Some 0] []) = [mkDMsg (Some 0) (Some 0) ENone; mkDMsg (Some 0) (Some 0) ENone].
+Theorem C29_direct_orig_duplicate_refuted :
+  snd (send_direct_with false 1 [Some 0; Some 0] []) = [mkDMsg (Some 0) (Some 0) ENone; mkDMsg (Some 0) (Some 0) ENone] /\
+  snd (send_direct 1 [Some 0; Some 0] []) = [mkDMsg (Some 0) (Some 0) ENone].
 Proof. exact direct_duplicate_refuted. Qed.
-Print Assumptions C29_direct_duplicate_refuted.
+Print Assumptions C29_direct_orig_duplicate_refuted.
 
 (* the unrepaired network: finished when every target existed and every engine
    read to EOF, but blocked for ever on a missing target or an aborting engine
